@@ -558,7 +558,10 @@ class Interp:
     def x_While(self, st, env, module, cls):
         spec = self.loop_spec(st)
         if spec is not None:
-            return spec.run_while(self, st, env, module, cls)
+            try:
+                return spec.run_while(self, st, env, module, cls)
+            except KeyError as e:       # the invariant is written over the locals of the loop as it was; a renamed local is no verdict
+                self.outside(f"the loop invariant refers to the local variable {e} which this version of the loop does not have", st)
         n = 0
         while self.to_bool(self.eval(st.test, env, module, cls)):
             n += 1
@@ -586,7 +589,10 @@ class Interp:
         it = self.force(self.eval(st.iter, env, module, cls))
         spec = self.loop_spec(st)
         if spec is not None:
-            return spec.run_for(self, st, it, env, module, cls)
+            try:
+                return spec.run_for(self, st, it, env, module, cls)
+            except KeyError as e:
+                self.outside(f"the loop invariant refers to the local variable {e} which this version of the loop does not have", st)
         items = ops.iterate(self, it, st)
         for x in items:
             self.assign_target(st.target, x, env, module, cls)
